@@ -871,3 +871,49 @@ def c_arity(seed):
                 lambda e: dict(op=e['op'], v=zint(e['v'] or 0), w=zint(e['w'] or 0), v_none=BoolVal(e['v'] is None), w_none=BoolVal(e['w'] is None),
                                diagram_type='bdd'),
                 lambda e: dict(call='assert_operator_arity', op=e['op'], v=e['v'], w=e['w']))
+
+
+# ---------------------------------------------------------------------------------------------------------------------
+# reordering primitives against their observed contracts (vlib/vc/contracts_reorder.py)
+@case('dd.bdd.BDD.swap!observed')
+def c_swap(seed):
+    def build(rnd):
+        env = new_manager(rnd, nvars=rnd.randint(2, 4), held=rnd.randint(0, 4))
+        n = len(env['b'].vars)
+        x = rnd.randrange(0, n - 1)
+        x, y = (x, x + 1) if rnd.random() < .5 else (x + 1, x)
+        if rnd.random() < .1:
+            y = rnd.choice([x, x + 2, -1, n])
+        if rnd.random() < .3:
+            env['b'].configure(reordering=True)
+            env['b']._last_len = rnd.choice([1, 2, 3])
+        env.update(x=x, y=y)
+        return env
+    return Case('dd.bdd.BDD.swap!observed', seed, build, lambda e: e['b'].swap(e['x'], e['y']),
+                lambda e: dict(self=None, x=zint(e['x']), y=zint(e['y']), all_levels=None), lambda e: dict(call='swap', x=e['x'], y=e['y']))
+
+
+def _reorder_case(with_order):
+    def c_(seed):
+        def build(rnd):
+            env = new_manager(rnd, nvars=rnd.randint(2, 4), held=rnd.randint(0, 4))
+            names = list(env['b'].vars)
+            rnd.shuffle(names)
+            env['order'] = {nm: k for k, nm in enumerate(names)} if with_order else None
+            if rnd.random() < .3:
+                env['b'].configure(reordering=True)
+                env['b']._last_len = rnd.choice([1, 2, 3])
+            return env
+
+        def za(e):
+            if e['order'] is None:
+                return dict(bdd=None, order=IntVal(0), order_none=BoolVal(True))
+            inv = arr([(IntVal(l), NAMEZ[nm]) for nm, l in e['order'].items()], I, NAMEZ['zz'])
+            return dict(bdd=None, order=zdict(e['order'], 'name', 'int'), order_inv=inv, order_none=BoolVal(False))
+        return Case('dd.bdd.reorder!observed', seed, build, lambda e: _dd().reorder(e['b'], e['order']), za,
+                    lambda e: dict(call='reorder', order=e['order'], vars=dict(e['b'].vars)))
+    return c_
+
+
+CASES['dd.bdd.reorder!observed[sifting]'] = ('dd.bdd.reorder!observed', _reorder_case(False))
+CASES['dd.bdd.reorder!observed[order]'] = ('dd.bdd.reorder!observed', _reorder_case(True))
